@@ -33,3 +33,30 @@ Proof.
   intros Hs Hx i Hi.
   apply (ls_consistent_exact m n 1 a b x (ls_solve_normal m n 1 a b x Hs) Hx i 0 Hi). auto.
 Qed.
+
+(* ---------------------------------------------------------------- the hypotheses can be met *)
+Require Import Lia.
+Definition su_a : mat QIF := [[mkqi 2 1 0 1; mkqi 1 1 1 1]; [mkqi 0 1 1 1; mkqi 3 1 0 1]].
+Definition su_b : mat QIF := [[mkqi 1 1 0 1]; [mkqi 0 1 2 1]].
+
+Example solve_square_nonvacuous :
+  wf 2 2 su_a /\ pivots_nonzero QIF Qc qi_nrm Qcmult Qc_ltb 0%Qc row_scale_of_max su_a 2 /\ wf 2 1 su_b.
+Proof.
+  split; [split; [reflexivity | repeat constructor]|].
+  split; [|split; [reflexivity | repeat constructor]].
+  intros j Hj. apply qi_neqb.
+  destruct j as [|[|j]]; [vm_compute; reflexivity | vm_compute; reflexivity | lia].
+Qed.
+
+(* a consistent tall system: the C19 example ex2 (3 x 2, two right-hand sides) restricted to its first column *)
+Definition su_ta : mat QIF := [[mkqi 1 1 0 1; mkqi 0 1 0 1]; [mkqi 0 1 0 1; mkqi 1 1 0 1]; [mkqi 1 1 0 1; mkqi 1 1 0 1]].
+Definition su_tx : mat QIF := [[mkqi 1 1 1 1]; [mkqi 2 1 0 1]].
+Definition su_tb : mat QIF := mmul QIF 3 2 1 su_ta su_tx.
+
+Example solve_tall_nonvacuous :
+  q2_ls_solve 3 2 1 su_ta su_tb = Some su_tx /\
+  exists x0 : mat QIF, forall i k, i < 3 -> k < 1 -> mget QIF (mmul QIF 3 2 1 su_ta x0) i k = mget QIF su_tb i k.
+Proof.
+  split; [apply omat_eqb_sound; vm_compute; reflexivity|].
+  exists su_tx. intros i k Hi Hk. reflexivity.
+Qed.
